@@ -10,8 +10,10 @@
   same_termination
   eager_syntax_witness
   match_range_witness
+  tables_as_modelled
 -/
 import Genshi.Lemmas.InclPrep
+import Genshi.Gen.Incl
 namespace Genshi.Props.C11
 open Genshi.Incl
 
@@ -68,6 +70,26 @@ theorem same_termination (T : List Name) (files : Files) (hH : inH T files = tru
   constructor <;> intro h fuel
   · rw [← inline_eq_runtime_partial T files hH]; exact h fuel
   · rw [inline_eq_runtime_partial T files hH]; exact h fuel
+
+/-! ## the code's tables the model is written against (regenerated from the code on every run)
+
+`renderN` is `_flatten → _match → _include` as one step with the include stage last (a run-time
+include is resolved after matching, by a template that runs its own complete pipeline: range
+`Rng.full`), text templates have no match stage, the class of an include target is fixed when the
+owning template is prepared (`cls`), a text include carries the empty fallback (`hasFb = true`,
+`fb = []`), an empty `xi:fallback` is a fallback. -/
+theorem tables_as_modelled :
+    Gen.Incl.markupFilters = [['_', 'f', 'l', 'a', 't', 't', 'e', 'n'], ['_', 'm', 'a', 't', 'c', 'h'], ['_', 'i', 'n', 'c', 'l', 'u', 'd', 'e']] ∧
+    Gen.Incl.textFilters = [['_', 'f', 'l', 'a', 't', 't', 'e', 'n'], ['_', 'i', 'n', 'c', 'l', 'u', 'd', 'e']] ∧
+    Gen.Incl.markupIncludeTable.map (fun r => (r.1, r.2.1)) =
+      [([], ['M', 'a', 'r', 'k', 'u', 'p', 'T', 'e', 'm', 'p', 'l', 'a', 't', 'e']),
+       (['x', 'm', 'l'], ['M', 'a', 'r', 'k', 'u', 'p', 'T', 'e', 'm', 'p', 'l', 'a', 't', 'e']),
+       (['t', 'e', 'x', 't'], ['N', 'e', 'w', 'T', 'e', 'x', 't', 'T', 'e', 'm', 'p', 'l', 'a', 't', 'e'])] ∧
+    Gen.Incl.markupIncludeTable.all (fun r => r.2.2 == ['n', 'o', 'n', 'e']) = true ∧
+    Gen.Incl.textInclude = (['N', 'e', 'w', 'T', 'e', 'x', 't', 'T', 'e', 'm', 'p', 'l', 'a', 't', 'e'], ['l', 'i', 's', 't', '0']) ∧
+    Gen.Incl.emptyFallback = ['l', 'i', 's', 't', '0'] ∧
+    Gen.Incl.loaderAutoReloadDefault = false := by
+  decide
 
 /-! ## the full statement is false: witnesses (findings/C11.json) -/
 
